@@ -12,9 +12,12 @@ import (
 	"context"
 	"fmt"
 	"math/rand/v2"
+	"time"
 
+	"github.com/transparency-dev/witness/internal/persistence"
 	"github.com/transparency-dev/witness/internal/verif/kit/ev"
 	"github.com/transparency-dev/witness/internal/verif/kit/gen"
+	"github.com/transparency-dev/witness/internal/verif/kit/seams"
 	"github.com/transparency-dev/witness/internal/verif/kit/wit"
 )
 
@@ -27,7 +30,7 @@ var cells = []string{
 func main() {
 	run := ev.Start("C03", "exploration")
 	defer run.Finish()
-	run.Rule("unit = one generated hostile history (as C01) with a storage fault injected into ~8% of requests at open-for-write / read-latest / write, plus scripted units for the rare refusal class 'non-empty proof at size zero'; every refusal is classified by the reference model into refusal class x {nothing stored, stored}. evaluations = update requests; nontrivial = distinct (class, stored?, old-size kind, checkpoint kind, proof kind, store) tuples among refusals")
+	run.Rule("unit = one generated hostile history (as C01) with a storage fault injected into ~8% of requests at open-for-write / read-latest / write, plus scripted units for the rare refusal class 'non-empty proof at size zero'; every refusal is classified by the reference model into refusal class x {nothing stored, stored}; further units end the caller context while an acceptable update is inside a storage call (or before it starts) and compare the state once everything the call started has finished. evaluations = update requests; nontrivial = distinct (class, stored?, old-size kind, checkpoint kind, proof kind, store) tuples among refusals")
 	run.Assume("the snapshot (GetLogs + GetCheckpoint of every configured and three unconfigured IDs + raw table rows on SQLite) is the observable state", "an injected write fault does not perform the write (a store that writes and then reports failure is outside the witness's control)")
 	for _, c := range cells {
 		run.Floor("cell:"+c, 200)
@@ -52,6 +55,79 @@ func main() {
 		}
 	})
 	run.Units("size0", run.Pick(400, 4000), 0, func(unit int64, r *rand.Rand) { sizeZero(run, unit, r, dir) })
+	run.Units("cancel", run.Pick(160, 3000), 0, func(unit int64, r *rand.Rand) { cancelled(run, unit, r, dir) })
+}
+
+// cancelled: the caller's context ends while an otherwise acceptable update is inside a storage
+// call. Whatever Update answers, if it is a refusal the state must stay unchanged - also after
+// everything the call started has finished.
+func cancelled(run *ev.Run, unit int64, r *rand.Rand, dir string) {
+	u := gen.NewUniverse(r, gen.Opts{NLogs: 1 + r.IntN(2), MaxSize: 20, Branches: 1})
+	kind := wit.DrawStore(r)
+	st, err := wit.NewStore(kind, dir)
+	if err != nil {
+		run.Inconclusive(err.Error())
+		return
+	}
+	defer st.Close()
+	keys, _ := wit.NewWitKeys(r, []bool{false, true}, true)
+	var hook *seams.HookStore
+	rn, err := wit.NewRunner(u, keys, st, func(p persistence.LogStatePersistence) persistence.LogStatePersistence {
+		hook = seams.NewHookStore(p)
+		return hook
+	})
+	if err != nil {
+		run.Inconclusive(err.Error())
+		return
+	}
+	rn.RawSQL = true
+	l := u.Logs[0]
+	cur := uint64(0)
+	for i := 0; i < 4; i++ {
+		nx := cur + 1 + uint64(r.IntN(4))
+		at := []string{seams.OpWriteOps, seams.OpWGet, seams.OpWSet, seams.OpWClose, "precancelled"}[r.IntN(5)]
+		pause := time.Duration(r.IntN(3)) * time.Millisecond
+		ctx, cancel := context.WithCancel(context.Background())
+		if at == "precancelled" {
+			cancel()
+		}
+		hook.SetHook(func(op, id string) error {
+			if op == at {
+				cancel()
+				time.Sleep(pause) // let a caller that watches the context return first
+			}
+			return nil
+		})
+		before := rn.Snap()
+		ret, err := rn.W.Update(ctx, l.ID, cur, l.Honest(0, nx), l.Branches[0].Consistency(cur, nx))
+		cancel()
+		// wait until whatever the call started has finished (open write handles drop to zero, state stable)
+		var after *wit.Snapshot
+		for k := 0; k < 400; k++ {
+			after = rn.Snap()
+			time.Sleep(2 * time.Millisecond)
+			if hook.OpenWrites() == 0 && rn.Snap().Equal(after) && k >= 3 {
+				break
+			}
+		}
+		hook.SetHook(nil)
+		run.Count("evaluations")
+		if err == nil {
+			cur = nx
+			run.Count("cancel_ignored_update_accepted")
+			continue
+		}
+		run.Count("cell:context_ended/" + map[bool]string{true: "stored", false: "empty"}[before.CP[l.ID] != nil])
+		run.Distinct("nontrivial", fmt.Sprintf("context_ended/%s/%s", at, kind))
+		detail := map[string]any{"store": kind, "cancelled_at": at, "err": fmt.Sprint(err), "returned": string(ret), "before": before, "after": after}
+		if !after.Equal(before) {
+			run.Violate("state_changed_on_refusal;class=context_ended;at="+at, fmt.Sprintf("the update was refused (%v) after its context ended, yet the stored state changed afterwards", err), unit, detail)
+			return
+		}
+		if ret != nil && !bytes.Equal(ret, before.CP[l.ID]) {
+			run.Violate("refusal_returned_other_bytes;class=context_ended", "refused with bytes that are not the stored checkpoint", unit, detail)
+		}
+	}
 }
 
 func judge(run *ev.Run, unit int64, h *wit.Hist, s *wit.Step) {
